@@ -73,7 +73,9 @@ CHECKS = {
               "lexes without error to a sentence of the file-header grammar (inductive G_query), and the tree is the unique one the grammar "
               "prescribes (n-ary chains, ^ tightest, parentheses only group); lexer errors reject; the lexer stream always ends with one "
               "EOF/error item. Tied to the code by ~6000 (thorough 60000) strings per run: derivations with random white space, token "
-              "mutations, raw bytes, placeholder edge cases; accept/reject and tree compared; goroutine count must return to baseline. "
+              "mutations, raw bytes, placeholder edge cases, chains of up to 2500 comparisons; accept/reject and tree compared; goroutine count must "
+              "return to baseline; (ObC09.v) on the skeleton of ParseQuery regenerated from the source every path to a return joins the lexer "
+              "goroutine it started (lockset soundness of Conc.v with goroutine start / join as acquire / release). "
               "Partial: goroutine stack exhaustion at ~10^6 nesting levels cannot be exhibited by the model."),
         design="5/C09", technique="Coq proof (soundness/completeness of a fuelled recursive-descent parser w.r.t. an inductive grammar) + " + T_DIFF),
     "C10": dict(
